@@ -242,6 +242,51 @@ def w_F11a():
     return True, "accepted"
 
 
+def w_F11d_add():
+    from funtracks.user_actions import UserAddNode
+
+    t = _sol({1: 0, 3: 2}, [(1, 3)])
+    before = snapshot(t)
+    px = (np.array([1]), np.array([0]), np.array([0]))
+    try:
+        UserAddNode(t, 9, {"time": 1, "track_id": t.get_track_id(1), "pos": [0.0, 0.0]}, pixels=px)
+    except Exception as e:  # noqa: BLE001
+        return before == snapshot(t), "UserAddNode with pixels but no segmentation raised %s after mutating: edges now %s" % (
+            type(e).__name__, sorted(t.graph.edges))
+    return True, "accepted"
+
+
+def w_F11d_delete():
+    from funtracks.user_actions import UserDeleteNode
+
+    t = _sol({1: 0, 2: 1, 3: 2}, [(1, 2), (2, 3)])
+    before = snapshot(t)
+    px = (np.array([1]), np.array([0]), np.array([0]))
+    try:
+        UserDeleteNode(t, 2, pixels=px)
+    except Exception as e:  # noqa: BLE001
+        return before == snapshot(t), "UserDeleteNode with pixels but no segmentation raised %s after mutating: edges now %s" % (
+            type(e).__name__, sorted(t.graph.edges))
+    return True, "accepted"
+
+
+def w_F11d_range():
+    from funtracks.user_actions import UserAddNode
+
+    seg = np.zeros((3, 4, 4), dtype=np.int64)
+    seg[0, 0:2, 0:2] = 1
+    seg[2, 0:2, 0:2] = 3
+    t = _sol({1: 0, 3: 2}, [(1, 3)], seg=seg)
+    before = snapshot(t)
+    px = (np.array([7]), np.array([0]), np.array([0]))  # frame 7 does not exist
+    try:
+        UserAddNode(t, 9, {"time": 1, "track_id": t.get_track_id(1)}, pixels=px)
+    except Exception as e:  # noqa: BLE001
+        return before == snapshot(t), "UserAddNode with pixels outside the array raised %s after mutating: edges now %s" % (
+            type(e).__name__, sorted(t.graph.edges))
+    return True, "accepted"
+
+
 def w_F11b():
     from funtracks.user_actions import UserAddEdge
 
@@ -552,6 +597,9 @@ WITNESSES = {
     "F-09a": (["C09"], w_F09a),
     "F-11a": (["C11"], w_F11a),
     "F-11b": (["C11"], w_F11b),
+    "F-11d-add": (["C11"], w_F11d_add),
+    "F-11d-delete": (["C11"], w_F11d_delete),
+    "F-11d-range": (["C11"], w_F11d_range),
     "F-11c": (["C11"], w_F11c),
     "F-12a": (["C12"], w_F12a),
     "F-12c": (["C12"], w_F12c),
